@@ -278,18 +278,14 @@ func (ts *TStateView) Remove(ctx context.Context, key []byte) error {
 		pastAllocates: chunks(ts.allocates, k),
 		pastWrites:    chunks(ts.writes, k),
 	})
-	if _, ok := ts.allocates[k]; ok {
-		// If delete after allocating in the same view, it is
-		// as if nothing happened.
-		delete(ts.allocates, k)
-		delete(ts.writes, k)
-		delete(ts.pendingChangedKeys, k)
-	} else {
-		// If this is not a new allocation, we mark as an
-		// explicit delete.
-		ts.writes[k] = 0
-		ts.pendingChangedKeys[k] = maybe.Nothing[[]byte]()
-	}
+	// A key allocated in this view is no longer an allocation once removed.
+	delete(ts.allocates, k)
+	// Mark as an explicit delete. If the key does not exist in the parent
+	// (delete after allocating in the same view), [isUnchanged] holds and
+	// it is as if nothing happened. If the key does exist in the parent
+	// (deleted and re-created in this view), the delete must stay pending.
+	ts.writes[k] = 0
+	ts.pendingChangedKeys[k] = maybe.Nothing[[]byte]()
 	if isUnchanged {
 		delete(ts.allocates, k)
 		delete(ts.writes, k)
